@@ -372,6 +372,24 @@ func (p c16) RunBatch(c *fw.Ctx) {
 	c.Begin(map[string]any{"phase": "exhaustive", "batch": c.Batch})
 	rec(0)
 	c.Sample(map[string]any{"input": fw.Q("1e+"), "mode": "file", "note": "one of the enumerated inputs"})
+	// long literals, each lexed twice in one input and once more by another lexer: spans and sharing don't depend on length
+	c.Begin(map[string]any{"phase": "long-literals", "batch": c.Batch})
+	for li, n := range []int{1, 15, 16, 17, 63, 64, 65, 127, 128, 129, 255, 256, 257, 511, 512, 513, 1023, 1024, 1025, 4095, 4096, 4097, 65535, 65536, 65537, 70001} {
+		if li%16 != c.Batch%16 {
+			continue
+		}
+		body := strings.Repeat("k", n)
+		for _, lit := range []string{"\"" + body + "\"", "`" + body + "`", "/*" + body + "*/", "//" + body + "\n", "x" + body, "1" + strings.Repeat("0", n), "1." + strings.Repeat("5", n)} {
+			in := []byte(lit + " " + lit + "\n" + lit)
+			for _, lm := range []bool{false, true} {
+				cs := c16Case{In: fw.Q(string(in)), Line: lm}
+				c.Begin(cs)
+				p.one(c, in, lm)
+				p.one(c, []byte(lit), lm)
+				c.Count("long_literal_inputs", 1)
+			}
+		}
+	}
 	// random longer inputs
 	nRand := c.Pick(15000, 100000)
 	for i := 0; i < nRand; i++ {
